@@ -151,7 +151,66 @@ def sys_property(pid, note=None, also_loop=False):
     return check
 
 
+ENTRY_ASSUMPTIONS = [
+    "one MIR dump per runtime feature (tokio_runtime, async_runtime with --no-default-features, smol_runtime likewise); "
+    "hannibal's own code - spawner.rs, the three *_spawner.rs, builder.rs, service.rs, actor_handle.rs, addr.rs - is executed from that MIR",
+    "the runtimes are contract models: tokio::spawn / async_std::task::spawn return a handle whose drop detaches; "
+    "smol::spawn returns a Task whose drop cancels the task (its future is dropped where it stands) and whose detach() "
+    "lets it run; awaiting an async-std JoinHandle / smol Task of a task that panicked re-raises the panic in the awaiter, "
+    "tokio's JoinHandle yields Err(JoinError); sleep is a virtual clock.  Each contract is validated on every run against "
+    "the real runtime by the native crate /verif/replay-rt (one build per feature)",
+    "a program is timing-independent: outcomes are compared as the set, over all explored schedules, of the results of "
+    "the client operations plus the sequence of user callbacks",
+] + SYS_ASSUMPTIONS
+
+
+def entry_property(pid):
+    def check(ctx):
+        import run_entry
+        import mirdump
+
+        def compute():
+            return run_entry.run(ctx.enums, mirdump.REPO, ctx.tier)
+        (res, stats), was_cached = ctx.cached('entry', compute)
+        vio = []
+        for x in res:
+            msg = re.sub(r'\d+', 'N', x['msg'])
+            vio.append(dict(sig=f"{pid}:{x['prog']}:{msg}", msg=x['msg'], program=x['prog'], native_confirmed=x.get('native_confirmed'),
+                            native_note=x.get('native_note'), trace=[list(map(str, e)) for e in x['trace']][:200]))
+        cov = dict(
+            evaluations=stats['paths'], distinct_nontrivial=stats['distinct_traces'],
+            rule="one evaluation = one explored schedule of one closed program (a spawn entry point followed by call / stop / "
+                 "await-or-join, or a program of the timers / owning / registry / children families) executed on the MIR of "
+                 "hannibal built with one runtime feature; distinct_nontrivial = distinct (runtime, program, event trace)",
+            states=stats['steps'], transitions=stats['steps'] + stats['solver_calls'],
+            traces_validated_against_impl=stats.get('traces_validated_against_impl', 0),
+            native_mismatches=stats.get('native_mismatches', []), native_confirmations=stats.get('native_confirmations', {}),
+            native_runs=stats.get('native_runs', {}),
+            samples=stats['samples'], solver_queries=stats['solver_calls'], solver_s=round(stats['solver_s'], 2),
+            schedules_cut_by_bound=stats['bound'], paths_truncated_by_loop_bound=stats['truncated'],
+            programs=stats['programs'], functions_encoded=stats['functions'], modelled_calls=stats['modelled'],
+            opaque_calls=stats['opaque'], exploration_wall_s=round(stats['wall_s'], 1),
+            shared_exploration_reused=was_cached, exhaustive=False,
+            bounds="runtimes x (14 entry points + program family), <= max_steps scheduler steps, preemption bound per program, "
+                   "bounded(n) entry points with symbolic n in 0..3",
+            note="few solver queries: the entry points are straight-line code; what is explored is schedules, the solver decides the capacity comparisons")
+        out = dict(violations=vio, coverage=cov, assumptions=list(ENTRY_ASSUMPTIONS))
+        if stats['unsupported']:
+            out['inconclusive'] = f"{len(stats['unsupported'])} programs could not be executed: {stats['unsupported'][0]}"
+        if stats['truncated']:
+            out['inconclusive'] = f"{stats['truncated']} schedules hit the MIR loop unrolling bound"
+        if stats.get('native_mismatches'):
+            out['inconclusive'] = f"model infidelity: {stats['native_mismatches'][0]}"
+        unconfirmed = [x for x in vio if x.get('native_confirmed') is False]
+        if unconfirmed:
+            out['inconclusive'] = f"{len(unconfirmed)} symbolic counterexamples did not reproduce natively: {unconfirmed[0]['msg']} ({unconfirmed[0].get('native_note')})"
+            out['violations'] = [x for x in vio if x.get('native_confirmed') is not False]
+        return out
+    return check
+
+
 CHECKS = {
+    'C18': entry_property('C18'),
     'C01': sys_property('C01', also_loop=True),
     'C02': sys_property('C02', also_loop=True),
     'C05': sys_property('C05'),
